@@ -44,6 +44,14 @@ class Prop(BaseProp):
                 # against the true one
                 add(stream, sch, chunks, "sethash", "otherhash")
                 add(stream, sch, chunks, "sethash")
+                # the same chunks under a legacy (version 0) footer: accepted for its own hash by both validators, refused for
+                # another; then damaged
+                add(stream, sch, chunks, "v0")
+                add(stream, sch, chunks, "v0", "otherhash")
+                v0len = 60 + 36 * n + 4
+                for o in rng.sample(range(1, v0len + 8), 6):
+                    add(stream, sch, chunks, "v0+flip:%d:%d" % (o, rng.randrange(8)))
+                add(stream, sch, chunks, "v0+trunc:%d" % rng.randrange(1, v0len))
                 add(stream, sch, chunks, "nofooter")
                 add(stream, sch, chunks, "dropchunk")
                 add(stream, sch, chunks, "dupchunk")
